@@ -95,6 +95,12 @@ def main():
          "confirmed": {"builds": rep["build"] == "ok", "existing_suite_baseline_missing": missing, "demo_fails_with_patch": rep["demo"].get("fails_with_patch"),
                        "demo_passes_without_patch": rep["demo"].get("passes_without_patch")},
          "our_check": rep["check"], "confirmed_at": time.strftime("%Y-%m-%d %H:%M"), "repo_commit": sh("git -C /repo log --format=%h -1").stdout.strip()}
+    try:
+        hist = json.load(open(os.path.join(V, "seeded", "HISTORY.json"))).get(name)
+    except Exception:
+        hist = None
+    if hist:
+        m["history"] = hist
     json.dump(m, open(os.path.join(d, "meta.json"), "w"), indent=1)
     return 0
 
